@@ -92,7 +92,8 @@ def make_world(case):
         if d['fixed']:
             p = Parameter(global_name(d['name']), d['val'])
         else:
-            p = Parameter(global_name(d['name']), d['val'], d['val'] - 10.0, d['val'] + 10.0)
+            lo = d['val'] if d.get('at_bound') else d['val'] - 10.0
+            p = Parameter(global_name(d['name']), d['val'], lo, d['val'] + 10.0)
         models = [W.sources[k] for k, nm in enumerate(d['names']) if nm is not None]
         mpn = [local_name(nm) if nm is not None else '_' for nm in d['names']]
         try:
